@@ -3,6 +3,7 @@ use crate::engine::{CaseCtx, CaseResult, Run};
 use crate::tape::Tape;
 
 pub mod c01;
+pub mod c02;
 pub mod c03;
 pub mod c04;
 pub mod c05;
@@ -33,6 +34,7 @@ pub struct Prop {
 pub fn all() -> Vec<Prop> {
     vec![
         Prop { id: "C01", level: "exploration", case: c01::case, run: c01::run, replay_reps: 1 },
+        Prop { id: "C02", level: "exploration", case: c02::case, run: c02::run, replay_reps: 4 },
         Prop { id: "C03", level: "exploration", case: c03::case, run: c03::run, replay_reps: 2 },
         Prop { id: "C04", level: "exploration", case: c04::case, run: c04::run, replay_reps: 4 },
         Prop { id: "C05", level: "exploration", case: c05::case, run: c05::run, replay_reps: 8 },
